@@ -832,9 +832,12 @@ impl LoadBalancingAlgorithm for Maglev {
         }
 
         // None of the table entries resolved to a healthy backend (every
-        // backend the table knows about is currently unhealthy/absent). Fall
-        // back to round-robin over the healthy subset so we still route.
-        self.round_robin.next_available_backend(None, backends)
+        // backend the table knows about is currently unhealthy/absent, or a
+        // healthy backend's weight share rounded down to zero slots). Fall
+        // back to a key-derived pick over the healthy subset so we still
+        // route, and the same key keeps reaching the same backend.
+        let idx = (key % backends.len() as u64) as usize;
+        backends.get(idx).cloned()
     }
 
     fn rebuild(&mut self, backends: &[Rc<RefCell<Backend>>]) {
